@@ -17,7 +17,7 @@ from geometry_tools.utils import words as W
 RULE = ("cases: dimension n in 1..5, 1-4 generators, matrices real well-conditioned (orthogonal x "
         "diagonal in +-[1/2,2] x unipotent, special: identity, -I, permutation, diagonal), complex, "
         "or unimodular integer (products of <= 5 elementary matrices; given as float64 or int64); "
-        "words over generators and inverses: every word of length <= 4 (thorough 6) over two "
+        "words over generators and inverses: every word of length <= 4 (thorough 7) over two "
         "generators on three fixed representations, random words up to length 30 incl. "
         "u v u^-1, powers, commutators and words with inserted cancelling pairs; multi-character "
         "names through rep[[...]], element(star string, parse_simple=False) and elements() of a "
@@ -179,9 +179,9 @@ def all_words(alphabet, maxlen):
 
 
 def exhaustive_words(tier):
-    Lmax = 4 if tier == "quick" else 6
+    Lmax = 4 if tier == "quick" else 7
     ws = list(all_words("abAB", Lmax))
-    chunk = 64 if tier == "quick" else 128
+    chunk = 64 if tier == "quick" else 256
     cases = []
     for r in range(len(FIXED_REPS)):
         for i in range(0, len(ws), chunk):
@@ -473,11 +473,6 @@ def body_compose(case, ctx):
     lib, ref, degree = menu[name]
     ctx.label("hom=" + name, "compute_inverses=%s" % case["compute_inverses"])
     kw = {"compute_inverses": True} if case["compute_inverses"] else {}
-    if kw and name in ("lie.hom.gln_adjoint", "lie.hom.sln_adjoint"):
-        # finding (reported): without an explicit dtype the lie adjoints return dtype=object
-        # arrays, which numpy cannot invert
-        ctx.label("excluded:object-dtype-adjoint-inverted")
-        kw = {}
     d = rep.compose(lib, **kw)
     ctx.check(list(d.asym_gens()) == list(rep.asym_gens()), "compose keeps the generators")
     ctx.check(set(d.generators) == set(rep.generators), "compose keeps the inverse names")
@@ -696,9 +691,8 @@ def body_adjoint(which):
 
     def body(case, ctx):
         if case.get("intdtype"):
-            # finding (reported): the adjoint of an int64-typed representation is truncated
-            ctx.label("excluded:int64-dtype-adjoint")
-            case = dict(case, intdtype=False)
+            # (the adjoint of an int64-typed representation used to be truncated: repaired)
+            ctx.label("int64-dtype-adjoint")
         rep, L, mats, guard, before = start(case, ctx)
         n = case["n"]
         d = rep.gln_adjoint() if which == "gln" else rep.sln_adjoint()
@@ -1319,17 +1313,33 @@ def body_multichar(case, ctx):
         g = "abc"[i]
         got = np.asarray(sub[[g]])
         ctx.close("subgroup generator = rho(word)", got, want, rtol=0, atol=tol(b, want))
-    # finding (reported): tensor_product / symmetric_square evaluate self[name] character
-    # by character and fail on multi-character names
+    # tensor_product / symmetric_square / subgroup(compute_inverse=False) used to evaluate
+    # names character by character and failed on multi-character names (repaired)
     if any(len(x) > 1 for x in names):
-        ctx.label("excluded:multichar-tensor-product")
-    else:
-        t = rep.tensor_product(rep)
-        for w in case["words"]:
-            P, b = L.eval(w)
-            ctx.close("tensor_product (single-character names here)", np.asarray(t[list(w)]),
-                      np.kron(P, P), rtol=0, atol=tol(4 * b * O.norm2(P) + 1e-13 * L.growth(w) ** 2,
-                                                      np.kron(P, P)))
+        ctx.label("multichar-tensor-product")
+    t = rep.tensor_product(rep)
+    sq = rep.symmetric_square()
+    n_ = case["n"]
+    Pm = R.symmetric_projection(n_)
+    Im = R.symmetric_inclusion(n_)
+    for w in case["words"]:
+        P, b = L.eval(w)
+        KP = np.kron(P, P)
+        at = tol(4 * b * O.norm2(P) + 1e-13 * L.growth(w) ** 2, KP)
+        ctx.close("tensor_product with these generator names", np.asarray(t[list(w)]), KP,
+                  rtol=0, atol=at)
+        ctx.close("symmetric_square with these generator names", np.asarray(sq[list(w)]),
+                  Pm @ KP @ Im, rtol=0, atol=at * 4)
+    sub2 = rep.subgroup([list(w) for w in sw] if not psf else ["*".join(w) for w in sw],
+                        compute_inverse=False)
+    for i, w in enumerate(sw):
+        want, b = L.eval(w)
+        G_ = "ABC"[i]
+        got = np.asarray(sub2[[G_]])
+        winv = np.linalg.inv(want)
+        ctx.close("subgroup(compute_inverse=False): inverse generator = rho(word)^-1",
+                  got @ want, np.eye(len(want)), rtol=0,
+                  atol=1e-9 * max(1.0, O.norm2(want) * O.norm2(winv)) ** 2)
     guard.check(ctx, rep, "derivations with multi-character names")
 
 
@@ -1338,45 +1348,45 @@ def nt_multichar(labels):
 
 
 LAWS = [
-    Law("word_homomorphism", hom_case(), body_word_homomorphism, G.nontrivial, quick=150,
-        thorough=1500, shards=(2, 8)),
+    Law("word_homomorphism", hom_case(), body_word_homomorphism, G.nontrivial, quick=210,
+        thorough=900, shards=(2, 8)),
     Law("words_exhaustive", None, body_words_exhaustive, G.nontrivial, exhaustive=exhaustive_words),
-    Law("free_reduction_invariant", reduction_case(), body_free_reduction, G.nontrivial, quick=150,
-        thorough=1500, shards=(1, 4)),
-    Law("derived_copy", derived_case(max_dim=5), body_copy, G.nontrivial, quick=60, thorough=600,
+    Law("free_reduction_invariant", reduction_case(), body_free_reduction, G.nontrivial, quick=210,
+        thorough=900, shards=(1, 4)),
+    Law("derived_copy", derived_case(max_dim=5), body_copy, G.nontrivial, quick=84, thorough=360,
         shards=(1, 2)),
-    Law("derived_conjugate", conj_case(), body_conjugate, G.nontrivial, quick=80, thorough=800,
+    Law("derived_conjugate", conj_case(), body_conjugate, G.nontrivial, quick=112, thorough=480,
         shards=(1, 4)),
-    Law("derived_dual", derived_case(max_dim=5), body_dual, G.nontrivial, quick=80, thorough=800,
+    Law("derived_dual", derived_case(max_dim=5), body_dual, G.nontrivial, quick=112, thorough=480,
         shards=(1, 4)),
-    Law("derived_compose", compose_case(), body_compose, G.nontrivial, quick=120, thorough=1200,
+    Law("derived_compose", compose_case(), body_compose, G.nontrivial, quick=168, thorough=720,
         shards=(1, 4)),
-    Law("derived_tensor_product", tensor_case(), body_tensor, G.nontrivial, quick=80, thorough=800,
+    Law("derived_tensor_product", tensor_case(), body_tensor, G.nontrivial, quick=112, thorough=480,
         shards=(1, 4)),
-    Law("derived_symmetric_square", sym_case(), body_symmetric_square, G.nontrivial, quick=80,
-        thorough=800, shards=(1, 4)),
+    Law("derived_symmetric_square", sym_case(), body_symmetric_square, G.nontrivial, quick=112,
+        thorough=480, shards=(1, 4)),
     Law("symmetric_square_bases", None, body_sym_bases, lambda l: True,
         exhaustive=exhaustive_sym_bases),
-    Law("derived_subgroup", subgroup_case(), body_subgroup, G.nontrivial, quick=100, thorough=1000,
+    Law("derived_subgroup", subgroup_case(), body_subgroup, G.nontrivial, quick=140, thorough=600,
         shards=(1, 4)),
-    Law("derived_gln_adjoint", adjoint_case_x(1), body_adjoint("gln"), G.nontrivial, quick=60,
-        thorough=600, shards=(1, 4)),
-    Law("derived_sln_adjoint", adjoint_case_x(2), body_adjoint("sln"), G.nontrivial, quick=60,
-        thorough=600, shards=(1, 4)),
-    Law("derived_astype", astype_case(), body_astype, G.nontrivial, quick=80, thorough=800,
+    Law("derived_gln_adjoint", adjoint_case_x(1), body_adjoint("gln"), G.nontrivial, quick=84,
+        thorough=360, shards=(1, 4)),
+    Law("derived_sln_adjoint", adjoint_case_x(2), body_adjoint("sln"), G.nontrivial, quick=84,
+        thorough=360, shards=(1, 4)),
+    Law("derived_astype", astype_case(), body_astype, G.nontrivial, quick=112, thorough=480,
         shards=(1, 2)),
-    Law("derived_projective", projective_case(), body_projective, G.nontrivial, quick=80,
-        thorough=800, shards=(1, 4)),
-    Law("derived_hyperbolic", hyperbolic_case(), body_hyperbolic, G.nontrivial, quick=80,
-        thorough=800, shards=(1, 4)),
-    Law("parent_not_mutated", chain_case(), body_parent_not_mutated, G.nontrivial, quick=60,
-        thorough=600, shards=(1, 4)),
-    Law("fox_fundamental_formula", fox_case(), body_fox, G.nontrivial, quick=100, thorough=1000,
+    Law("derived_projective", projective_case(), body_projective, G.nontrivial, quick=112,
+        thorough=480, shards=(1, 4)),
+    Law("derived_hyperbolic", hyperbolic_case(), body_hyperbolic, G.nontrivial, quick=112,
+        thorough=480, shards=(1, 4)),
+    Law("parent_not_mutated", chain_case(), body_parent_not_mutated, G.nontrivial, quick=84,
+        thorough=360, shards=(1, 4)),
+    Law("fox_fundamental_formula", fox_case(), body_fox, G.nontrivial, quick=140, thorough=600,
         shards=(1, 4)),
     Law("cocycle_annihilates_coboundary", relator_case(), body_cocycle, lambda l: "len>=3" in l,
-        quick=80, thorough=800, shards=(1, 4)),
-    Law("assignment_history", history_case(), body_history, nt_history, quick=150, thorough=1500,
+        quick=112, thorough=480, shards=(1, 4)),
+    Law("assignment_history", history_case(), body_history, nt_history, quick=210, thorough=900,
         shards=(1, 4)),
-    Law("multichar_names", multichar_case(), body_multichar, nt_multichar, quick=80, thorough=800,
+    Law("multichar_names", multichar_case(), body_multichar, nt_multichar, quick=112, thorough=480,
         shards=(1, 4)),
 ]
